@@ -34,6 +34,12 @@ Theorem C15_hysteresis_inv : forall rise fall results s h, hc_inv s h -> hc_inv 
 Proof. exact hc_inv_run. Qed.
 Print Assumptions C15_hysteresis_inv.
 
+(* the same over a run whose thresholds are reconfigured on the way: hc_inv holds in every reachable state, so
+   C15_hysteresis applies at every check with the thresholds in force at that check *)
+Theorem C15_hysteresis_reconfigured : forall l s h, hc_inv s h -> hc_inv (hc_run_cfg s l) (rev (map snd l) ++ h).
+Proof. exact hc_inv_run_cfg. Qed.
+Print Assumptions C15_hysteresis_reconfigured.
+
 (* non-vacuity: the three historical witnesses now behave *)
 Definition d (i : oid) : addr * htype := (1 + i mod 4, if i mod 8 <? 4 then Main else Backup).
 Example C15_readd_other_type : cache (run d [1;2;3;4] [HAdd [0]; HAdd [8]; HRemove [8]]) = [].
